@@ -203,15 +203,6 @@ class C06(PropBase):
         units, _rest, flag = ber.frame_units(S.rx_all)
         D = len(units)
         if flag is None and x["R"] < D:
-            # one way of accounting is tolerated: the error for the last unit is raised by the very next receive call
-            # (a possible repair of known finding K1 defers the ProtocolError of a termination that follows other messages)
-            from .c05 import outcome
-
-            ev2 = outcome(S.real, b"")
-            if not ev2["ok"] and ev2["exc"]["proto"]:
-                x["error"] = True
-                st.hit("error_deferred_to_next_call")
-                return
             raise Violation(P, "swallowed", "%d complete outer PDUs have been delivered (%d bytes) but receive() has returned only %d "
                             "messages and raised nothing; this call delivered %d bytes completing PDUs %s (damage: %s)" % (
                                 D, len(S.rx_all), x["R"], n, completed, [x["dam"].get(i) for i in completed]))
